@@ -48,7 +48,9 @@ fn c11(seed: u64, case: u64, out: &Out) {
     // min_size > 0 is not explored: an idle core worker never yields (it blocks 1 ms and polls again inside one scheduling pass),
     // so a pass with nothing to do would not return without the preemptive feature - outside this property
     let (min, max) = *rng.pick(&[(0usize, 1usize), (0, 2), (0, 2), (0, 4), (0, 8), (0, 16)]);
-    let keep_alive_ms = *rng.pick(&[0u64, 5]);
+    // 30 s: idle workers legitimately linger, but a stop must not wait for their keep-alive time
+    let keep_alive_ms = *rng.pick(&[0u64, 5, 5, 30_000]);
+    let lingering = keep_alive_ms > 1000;
     let ntasks = rng.usize(1, 24);
     // half of the cases are built so that workers end abnormally while tasks are still queued: few workers, long delays, early cancels
     let pressure = case % 2 == 1;
@@ -144,17 +146,17 @@ fn c11(seed: u64, case: u64, out: &Out) {
         if done + cancelled.len() + self_cancelled.load(Ordering::SeqCst) >= ntasks && pool.is_empty() {
             // a cancelled worker may still be parked in a delay: it is discarded when the delay is over (at most 3 x 60 ms)
             idle_passes += 1;
-            if (idle_passes > 8 && running <= min) || idle_passes > 150 {
+            if (idle_passes > 8 && (running <= min || lingering)) || idle_passes > 150 {
                 break;
             }
-            std::thread::sleep(Duration::from_millis(keep_alive_ms + 2));
+            std::thread::sleep(Duration::from_millis(keep_alive_ms.min(5) + 2));
         }
     }
     if viol.is_none() && over_max.load(Ordering::SeqCst) > 0 {
         viol = Some(("running-size-exceeds-max".into(), format!("seen from inside tasks {} times", over_max.load(Ordering::SeqCst))));
     }
     let running_idle = pool.get_running_size();
-    if viol.is_none() && running_idle > min {
+    if viol.is_none() && running_idle > min && !lingering {
         viol = Some(("running-size-does-not-return-to-idle-level".into(), format!("all work done or cancelled, {running_idle} workers still counted (min_size {min}), live workers {}", LIVE.load(Ordering::SeqCst))));
     }
     let ts = Instant::now();
